@@ -426,6 +426,16 @@ fn main() {
         }
     }
 
+    // ---- operand forms outside the token-level model (named arguments, leading-dot variants, lambdas):
+    //      Rust-side oracle only (fixed expected trees); they also exercise the hook's printer arms
+    for (src, want) in [("f ( x = 1 , y = - 2 ^ 2 )", "ok (call f (named x 1) (named y (neg (pow 2 2))))"),
+                        ("a + . some ( 3 ) * 2", "ok (add a (mul (call (dot some) 3) 2))"), (". none == b", "ok (eq (dot none) b)"),
+                        ("x -> x + 1", "ok (other:lambda)"), ("g ( ( p , q ) -> p * q , 1 )", "ok (call g (other:lambda) 1)"),
+                        ("- . v", "ok (neg (dot v))"), ("f ( k =\n - 3 )", "ok (call f (named k (neg 3)))")] {
+        let got = impl_answer(src);
+        ctx.count("probe:unmodelled-operand-forms");
+        if got != want { ctx.spec_fail(format!("operand form {src:?}: parser answered {got}, expected {want}")); }
+    }
     // ---- hard regression probes for D85 (7fe8312) and the statement boundary
     for (src, want) in [("3 +\n -2 ^ 2", "ok (add 3 (neg (pow 2 2)))"), ("3 +\n -x", "ok (add 3 (neg x))"),
                         ("true and\n not b", "ok (and true (not b))"), ("1\n- x", "partial 1 1"), ("a\n( b )", "partial 1 a")] {
